@@ -431,6 +431,52 @@ def timeout_probe(ctx):
         request.time = real
 
 
+def request_input_probe(ctx):
+    """the reader as a handler gets it: whenever block caching is configured
+    (cached_size > 0) and the body was not read into memory, req.input keeps
+    the declared length whatever the sizes involved"""
+    from implrun import new_app, environ, call
+    body = b"line one\r\nline two\r\nrest of the body"
+    trail = b"GET /next HTTP/1.1\r\n\r\n"
+    plans = [[("read", -1)], [("readline", -1)] * 5,
+             [("read", 4), ("readline", -1), ("read", -1)],
+             [("readline", 3), ("read", 1000)], [("read", 1000)]]
+    for n in (0, 1, 10, len(body) - 1, len(body)):
+        for cached in (1, 7, n or 1, n + 1, n + 100, 65536):
+            for auto_data, data_size in ((False, 32768), (True, max(0, n - 1)),
+                                         (True, 0)):
+                for plan in plans:
+                    stream = Stream(body + trail, limit=SPIN_LIMIT_LONG)
+                    got = []
+                    app = new_app(auto_data=auto_data, data_size=data_size,
+                                  cached_size=cached, auto_form=False,
+                                  auto_json=False, read_timeout=None)
+
+                    def handler(req, plan=plan, got=got, stream=stream):
+                        for op, size in plan:
+                            stream.call_reads = 0
+                            got.append(getattr(req.input, op)(size))
+                        return "ok"
+                    app.set_route("/in", handler, 511)
+                    env = environ(method="POST", path="/in",
+                                  content_type="application/octet-stream",
+                                  content_length=str(n))
+                    env["wsgi.input"] = stream
+                    ans = call(app, env)
+                    det = {"declared": n, "cached_size": cached,
+                           "auto_data": auto_data, "data_size": data_size,
+                           "calls": plan, "returned": repr(got),
+                           "consumed_from_stream": stream.pos,
+                           "status": ans.status}
+                    ctx.case(("request-input", n, cached, auto_data,
+                              data_size, repr(plan)), True, None)
+                    ctx.count("request-input")
+                    data = b"".join(got)
+                    if ans.code != 200 or stream.pos > n or \
+                            data != body[:len(data)] or len(data) > n:
+                        ctx.violation("request-input-ignores-length", det)
+
+
 def run(ctx):
     marks = [("start", time.time())]
 
@@ -522,6 +568,7 @@ def run(ctx):
     ctx.correspondence("reader", IMPORTS, cases, describe)
     mark("correspondence (coqc)")
     timeout_probe(ctx)
+    request_input_probe(ctx)
 
     # ---------------- verdict of the monitor
     seen_keys = {}
